@@ -12,6 +12,8 @@
                               unchanged, makes it TERMINAL (wait budget exhausted) or is the start above
      C03_tasks_run_in_running (with the invariant RUNNING task => RUNNING stage, see C06) RunTask executes a task
                               only if the task is RUNNING (guard regenerated from run_task/handler.py)
+   C03_child_never_started_before_parent  a StartStage handling writes a stage of a synthetic child only when the
+                              child's parent is not NOT_STARTED in the state it read
    C03_no_execution_in_not_started_stage  whole-run invariant (EngineNS): no task executes in a NOT_STARTED stage, ever
    OPEN: that no OTHER handler moves a NOT_STARTED stage to RUNNING is part of C06_commit_legal's case analysis
          (Signal: from SUSPENDED; suspend-with-buffered-signal: from RUNNING) but is not restated here. *)
@@ -64,6 +66,14 @@ Theorem C03_start_stage_before_stages_first : forall s i st t,
   filter (initial_at s) (kids s i OwnBefore) = [] /\ new_initial (length (w_stages s)) (new_before s i st) = [].
 Proof. exact first_msgs_start_task. Qed.
 
+(* a synthetic stage is never started ahead of its parent: a StartStage handling that finds the parent NOT_STARTED
+   (re-armed by a jump after the message was queued, or a recovery duplicate) writes no stage at all (repo c3e26e6) *)
+Theorem C03_child_never_started_before_parent : forall s id i k st p ps j st',
+  get_stage s i = Some st -> y_parent (s_syn st) = Some p -> get_stage s p = Some ps ->
+  In (j, st') (puts (h_commits (handle_start_stage s id i k))) ->
+  s_status ps <> NOT_STARTED.
+Proof. exact start_stage_child_started_under_started_parent. Qed.
+
 (* An invariant of EVERY run (any workflow submitted with all tasks NOT_STARTED; any delivery order, redeliveries, crash
    cuts, sweeps, cancels, signals, pauses, jumps and operator restarts), by induction over the action list: a stage that
    is NOT_STARTED has only NOT_STARTED tasks.  It holds only since StartTask refuses a NOT_STARTED stage (c9af2a4). *)
@@ -103,5 +113,6 @@ Print Assumptions C03_start_stage_only.
 Print Assumptions C03_tasks_run_in_running.
 Print Assumptions C03_parent_tasks_after_before_stages.
 Print Assumptions C03_start_stage_before_stages_first.
+Print Assumptions C03_child_never_started_before_parent.
 Print Assumptions C03_not_started_stage_has_no_started_task.
 Print Assumptions C03_no_execution_in_not_started_stage.
